@@ -308,7 +308,11 @@ def check(rec, kind, idx, rng, tier):
     L = int(rng.integers(1, 6))
     seq = [str(s) for s in rng.choice(pool, size=L)]
     okc = 0
+    nviol0 = sum(rec.viol_count.values())
     for pos, fname in enumerate(seq):
+        nviol = sum(rec.viol_count.values())
+        if pos and nviol > nviol0:
+            break           # a violation leaves the shared objects in an unknown state: later calls would be blamed for it
         res = one_call(rec, fname, args, aux, snaps, dt, lay, dask, seq_pos=pos, extra_pay=dict(sequence=seq))
         if res is not None:
             okc += 1
